@@ -46,6 +46,48 @@ def replay_compwriter(v, tier, ev):
         f"CompressionLayerWriter, {o['hidden_compared']} hidden-state comparisons, {o['drifts']} drifts")
 
 
+
+def replay_config(v, tier, ev):
+    """"any combination of the layers, any compression level and any set of recipients": the configuration API."""
+    import json
+    import os
+    cfg = f"Config.{tier}.cfg"
+    r = tlc("MCConfig", cfg, "c01-config", workers=1, timeout=1200, heap="8g")
+    ev["tlc"].append(dict(module="Config", cfg=cfg, generated=r.generated, distinct=r.distinct, depth=r.depth, violation=r.violation))
+    if r.violation:
+        tlc_counterexample_violation(v, r, "MCConfig", cfg)
+        return
+    behs = r.prints["REPLAY"]
+    wd = workdir("c01-config")
+    n = 8
+    from concurrent.futures import ThreadPoolExecutor
+
+    def one(i):
+        bp, op = os.path.join(wd, f"behs{i}.jsonl"), os.path.join(wd, f"out{i}.json")
+        write_jsonl(bp, behs[i::n])
+        mbt("prod", "config", bp, op, timeout=3000)
+        os.remove(bp)
+        return json.load(open(op))
+    build("prod")
+    with ThreadPoolExecutor(max_workers=n) as ex:
+        outs = list(ex.map(one, range(n)))
+    tot = dict(runs=0, completed=0, drifts=0)
+    for o in outs:
+        for k in tot:
+            tot[k] += o[k]
+        for viol in o["violations"]:
+            b = viol["beh"]
+            v.violation(dict(check="config-replay", kind=viol["kind"], stack=("comp" if b["comp"] else "") + ("+enc" if b["enc"] else ""),
+                             op="from_config", name=None, src=None), dict(engine="config", profile="prod", behaviour=b, detail=viol["detail"]))
+        if o["drifts"]:
+            log(f"MODEL-DRIFT module=Config sample={json.dumps(o['drift_samples'][:1])[:500]}")
+    ev["config"] = dict(behaviours=len(behs), **tot)
+    ev["states"] = ev.get("states", 0) + r.distinct
+    ev["transitions"] = ev.get("transitions", 0) + r.generated
+    log(f"[C01] Config/{cfg}: {len(behs)} builder-call sequences executed on the real configuration API (header parsed by the "
+        f"independent codec, 4 key sets per archive), {tot['drifts']} drifts")
+
+
 def main(tier):
     v = Verdict("C01", tier)
     ev = dict(tlc=[])
@@ -78,7 +120,8 @@ def main(tier):
         replay_writer(v, "C01", runs, variants, "s20", "c01", ev,
                       stride_of=(lambda p: 1 if p["level"] == 5 and p["nrecip"] == 1 else (7 if not heavy else 3)))
     replay_compwriter(v, tier, ev)
-    cov = dict(states=ev.get("states", 0), transitions=ev.get("transitions", 0), compression_writer_model=ev.get("compwriter"),
+    replay_config(v, tier, ev)
+    cov = dict(states=ev.get("states", 0), transitions=ev.get("transitions", 0), compression_writer_model=ev.get("compwriter"), configuration_model=ev.get("config"),
                traces_validated_against_impl=ev.get("runs", 0), samples=ev.get("samples", [])[:3] or ["none"],
                edges_exported=ev.get("edges", 0), steps_replayed=ev.get("steps", 0),
                hidden_state_steps_compared=ev.get("hidden_compared", 0), archives_read_back=ev.get("readbacks", 0),
